@@ -1,0 +1,28 @@
+// Copyright 2019 Samaritan Authors
+//
+// Licensed under the Apache License, Version 2.0 (the "License");
+// you may not use this file except in compliance with the License.
+// You may obtain a copy of the License at
+//
+//      http://www.apache.org/licenses/LICENSE-2.0
+//
+// Unless required by applicable law or agreed to in writing, software
+// distributed under the License is distributed on an "AS IS" BASIS,
+// WITHOUT WARRANTIES OR CONDITIONS OF ANY KIND, either express or implied.
+// See the License for the specific language governing permissions and
+// limitations under the License.
+
+//go:build verif
+// +build verif
+
+package lb
+
+// This file only exists with the build tag "verif".
+
+// VerifSetRandInt replaces the random source of the random and
+// least-connection balancers and returns a function restoring the old one.
+func VerifSetRandInt(fn func() int) (restore func()) {
+	old := randInt
+	randInt = fn
+	return func() { randInt = old }
+}
